@@ -32,7 +32,10 @@ N(kind, loc) == Cardinality({i \in OpIdx : Ops[i][1] = kind /\ Ops[i][2] = loc})
 RF(i, loc, f) == Reps[i].locs[loc + 1][f]
 SumRF(loc, f) == SumSeq([i \in RepIdx |-> RF(i, loc, f)])
 LoadCnt(loc, m) == Cardinality({i \in OpIdx : Ops[i][1] = 5 /\ Ops[i][2] = loc /\ Ops[i][3] = m})
-LoadSum(loc, m) == SumSeq([i \in OpIdx |-> IF Ops[i][1] = 5 /\ Ops[i][2] = loc /\ Ops[i][3] = m THEN Ops[i][4] ELSE 0])
+\* server load values are integers 1..9: the sum without recursion over the (long) list of calls
+W(v, k) == v * k
+LoadSum(loc, m) == LET c(v) == Cardinality({i \in OpIdx : Ops[i][1] = 5 /\ Ops[i][2] = loc /\ Ops[i][3] = m /\ Ops[i][4] = v}) IN
+                   c(1) + 2 * c(2) + 3 * c(3) + 4 * c(4) + 5 * c(5) + 6 * c(6) + 7 * c(7) + 8 * c(8) + 9 * c(9)
 TotalsBad ==
   \/ \E loc \in Locs :
         \/ SumRF(loc, 1) # N(1, loc) \/ SumRF(loc, 2) # N(2, loc) \/ SumRF(loc, 3) # N(3, loc)
